@@ -113,6 +113,7 @@ func (p *Proxy) serveClients(ctx context.Context) {
 			} else if cmd.err != nil {
 				p.mutex.Lock()
 				delete(p.clients, cmd.id)
+				vEmit("proxy.remove", p, 0, len(p.clients), cmd.id)
 				p.mutex.Unlock()
 				if p.clientDisconnect != nil {
 					p.clientDisconnect(cmd.id, cmd.err)
@@ -126,6 +127,7 @@ func (p *Proxy) serveClients(ctx context.Context) {
 }
 
 func (p *Proxy) forwardRpc(source string, rpc *goatorepo.Rpc) {
+	vEmit("proxy.accept", p, rpc.GetId(), 0, source)
 	// Sanity check RPC first
 	if rpc.Header == nil || rpc.Header.Source != source {
 		log.Warn().Msgf("Bad Rpc: %v", rpc)
@@ -166,9 +168,12 @@ func (p *Proxy) forwardRpc(source string, rpc *goatorepo.Rpc) {
 	}
 	p.mutex.Unlock()
 
+	vGate("proxy.enqueue.window", p, rpc.GetId())
 	select {
 	case client.fromServer <- rpc:
+		vEmit("proxy.route", p, rpc.GetId(), len(client.fromServer), destination)
 	default:
+		vEmit("proxy.drop", p, rpc.GetId(), len(client.fromServer), destination)
 		log.Warn().Str("source", rpc.Header.Source).
 			Str("destination", rpc.Header.Destination).
 			Str("method", rpc.Header.Method).
